@@ -1024,3 +1024,34 @@ def srte_units(props):
     us.append(CodecUnit('MpReachNLRI.construct[SR-TE policy]', 'yabgp.message.attribute.mpreachnlri.MpReachNLRI.construct', mp_args,
                         mp_expect, props=tuple(props)))
     return us
+
+
+# ================================================================ construct-only family: IPv6 flowspec prefix component (RFC 8956 3.1)
+def flowspec6_units(props):
+    """<length, offset, pattern>: the pattern is the bits offset .. length-1 of the address, left-aligned, padded with zero
+    bits to an octet boundary: ceil((length - offset) / 8) octets"""
+    from .mp_units import sym_digits
+    SHAPES = [(64, 0), (0, 0), (128, 0), (48, 16), (127, 8), (1, 0), (10, 3), (64, 1), (128, 127), (33, 32)]
+
+    def args(it):
+        k = it.p.concretize(sym_int(it, 'fs6_shape', 0, len(SHAPES) - 1).t, what='(length, offset) shape')
+        ln, off = SHAPES[k]
+        from .mp_units import canonical_prefix
+        a, _ = canonical_prefix(it, 'fs6_addr', 16, plen=ln)
+        it._fs6 = (a, ln, off)
+        return [{'prefix': STR.concat([STR.ip6(a), '/', str(ln)]), 'offset': off}]
+
+    def expect(it, prefix):
+        a, ln, off = it._fs6
+        bits = ln - off
+        n = (bits + 7) // 8
+        k0, r = off // 8, off % 8
+        o = list(a.octs) + [z3.IntVal(0)] * 2
+        pat = []
+        for j in range(n):
+            hi, lo = o[k0 + j], o[k0 + j + 1]
+            pat.append(z3.simplify(hi if r == 0 else ((hi * (2 ** r)) % 256) + lo / (2 ** (8 - r))))
+        from .mp_units import octets_bytes
+        return 'ret', SP.cat(SP.be(ln, 1), SP.be(off, 1), octets_bytes(pat, n) if n else b'')
+    return [CodecUnit('IPv6FlowSpec.construct_prefix', 'yabgp.message.attribute.nlri.ipv6_flowspec.IPv6FlowSpec.construct_prefix',
+                      args, expect, props=tuple(props))]
